@@ -65,6 +65,8 @@ def skeletons(tier):
     prefixes += [[("include", X)] for X in XSETS]
     prefixes += [[("define", XSETS[i]), ("include", XSETS[(i + 3) % 7])] for i in range(7)]
     prefixes += [[("helper",), ("define", XSETS[5])], [("plain",), ("include", XSETS[4])], [("helper",), ("plain",)]]
+    # two include directives on CONSECUTIVE lines (the usual "cpu implementation / gpu implementation" pair and others)
+    prefixes += [[("include", XSETS[i]), ("include2", XSETS[(i + 2) % 7])] for i in (0, 4, 5, 6)]
     body1 = [[("inc",)], [("inc",), ("inc",)]]
     body1 += [[("inc",), ("mark", X)] for X in XSETS]
     body1 += [[("mark", XSETS[2]), ("inc",)], [("mark", XSETS[5]), ("mark", XSETS[0])]]
@@ -106,7 +108,7 @@ def render(sk, incdir, variant=0):
     k = sk["id"]
     name = "kk_%d" % k
     lines = []
-    exp = dict(name=name, counts=[0, 0], limits=["n", "n"], marks=[], define=None, include=None, include_restricted=None, plain=[])
+    exp = dict(name=name, counts=[0, 0], limits=["n", "n"], marks=[], define=None, include=None, include_restricted=None, include2=None, plain=[])
     for p in sk["prefix"]:
         if p[0] == "plain":
             l = "/* plain file-scope text of skeleton %d */" % k
@@ -132,6 +134,12 @@ def render(sk, incdir, variant=0):
             lines.append("//include_file %s for_context %s" % (fn, xs(p[1])))
             exp["include"] = p[1]
             exp["include_restricted"] = Y
+        elif p[0] == "include2":  # a second directive right behind the first one
+            fn2 = "inc2_%d.h" % k
+            with open(os.path.join(incdir, fn2), "w") as f:
+                f.write("#define INC2_%d %d\n" % (k, 1 + variant))
+            lines.append("//include_file %s for_context %s" % (fn2, xs(p[1])))
+            exp["include2"] = p[1]
     lines.append("/*gpukern*/ void %s(const int n, /*gpuglmem*/ int* c0, /*gpuglmem*/ int* c1, /*gpuglmem*/ int* flags){" % name)
     nmark = 0
     for b in sk["blocks"]:
@@ -158,7 +166,7 @@ def render(sk, incdir, variant=0):
     l = "  flags[7] = flags[7] + 0; /* plain statement of skeleton %d */" % k
     lines.append(l)
     exp["plain"].append(l)
-    lines += ["#ifdef MARK_%d" % k, "  flags[5] = 1;", "#endif", "#ifdef INC_%d" % k, "  flags[6] = 1;", "#endif", "#ifdef INCR_%d" % k, "  flags[4] = 1;", "#endif", "}"]
+    lines += ["#ifdef MARK_%d" % k, "  flags[5] = 1;", "#endif", "#ifdef INC_%d" % k, "  flags[6] = 1;", "#endif", "#ifdef INCR_%d" % k, "  flags[4] = 1;", "#endif", "#ifdef INC2_%d" % k, "  flags[8] = INC2_%d;" % k, "#endif", "}"]
     exp["plain"] += ["#ifdef MARK_%d" % k, "  flags[5] = 1;", "#endif", "#ifdef INC_%d" % k, "  flags[6] = 1;", "}"]
     return lines, exp
 
@@ -320,6 +328,8 @@ def check_counts(exp, n, c0, c1, fl, target, label):
             want = 1 if (X is not None and active(target, X)) else 0
             if fl[fi] != want:
                 return key + "-for-context", "%s restricted to %s: marker is %d on %s (n=%d)" % (key, X, int(fl[fi]), target, n)
+        if exp.get("include2") is not None and (fl[8] != 0) != active(target, exp["include2"]):
+            return "include-for-context", "second of two adjacent include directives (for %s): marker is %d on %s (n=%d)" % (exp["include2"], int(fl[8]), target, n)
         if exp["include"] is not None:
             want = 1 if (active(target, exp["include"]) and active(target, exp["include_restricted"])) else 0
             if fl[4] != want:
@@ -411,7 +421,7 @@ def run_shard(sks, tier, seed):
                         pre = []
                     c0 = np.zeros(n + GUARD, dtype="i4")
                     c1 = np.zeros(n + GUARD, dtype="i4")
-                    fl = np.zeros(8, dtype="i4")
+                    fl = np.zeros(10, dtype="i4")
                     res.transitions += 1
                     res.events[label] += 1
                     try:
@@ -437,7 +447,7 @@ def run_shard(sks, tier, seed):
                         hist.append((setting, n))
                         c0 = np.zeros(n + GUARD, dtype="i4")
                         c1 = np.zeros(n + GUARD, dtype="i4")
-                        fl = np.zeros(8, dtype="i4")
+                        fl = np.zeros(10, dtype="i4")
                         res.transitions += 1
                         res.events["set_n_threads"] += 1
                         try:
